@@ -4,13 +4,13 @@ usage: check_generated.py [--fix]   exit 0 if all equal (or fixed)"""
 import os, sys
 ROOT = os.path.dirname(os.path.dirname(os.path.abspath(__file__)))
 sys.path.insert(0, os.path.join(ROOT, "translate"))
-import py2lean, py2lean_guards as g, py2lean_np, py2lean_scatter, py2lean_imp, py2lean_holdout, py2lean_arrow, py2lean_cand, py2lean_neg, py2lean_als, py2lean_agg, py2lean_rank, py2lean_sim, py2lean_split, py2lean_coll, py2lean_build
+import py2lean, py2lean_guards as g, py2lean_np, py2lean_scatter, py2lean_imp, py2lean_holdout, py2lean_arrow, py2lean_cand, py2lean_neg, py2lean_als, py2lean_agg, py2lean_rank, py2lean_sim, py2lean_split, py2lean_coll, py2lean_build, py2lean_ent
 R = "/repo/src/lenskit"; G = os.path.join(ROOT, "lean", "LK", "Generated")
 out = {f"Guards{pid}.lean": g.generate(pid, R) for pid in sorted(g.SITES)}
 out.update({"NpC08.lean": py2lean_np.translate_learn(R), "NpC06.lean": py2lean_np.translate_dcg(R), "ScatterC04.lean": py2lean_scatter.generate(R),
             "ImpC08.lean": py2lean_imp.translate(R), "HoldoutC05.lean": py2lean_holdout.generate(R), "ArrowC17.lean": py2lean_arrow.translate(R),
             "ArrowScalarC17.lean": py2lean_arrow.translate_scalar(R), "CandC03.lean": py2lean_cand.translate(R), "NegC20.lean": py2lean_neg.translate(R), "AlsC10.lean": py2lean_als.generate(R), "AggC07.lean": py2lean_agg.generate(R), "RankC06.lean": py2lean_rank.generate(R), "ImpC19.lean": py2lean_imp.translate_linear(R), "RowPtrsC01.lean": py2lean_arrow.translate_rowptrs(R), "SimC09.lean": py2lean_sim.translate(R), "SplitC05.lean": py2lean_split.translate(R),
-            "CollC15.lean": py2lean_coll.translate(R), "BuildC14.lean": py2lean_build.translate(R, "C14"), "BuildC02.lean": py2lean_build.translate(R, "C02"),
+            "CollC15.lean": py2lean_coll.translate(R), "EntC17.lean": py2lean_ent.translate(R), "BuildC14.lean": py2lean_build.translate(R, "C14"), "BuildC02.lean": py2lean_build.translate(R, "C02"),
             "Chunking.lean": py2lean.translate(R + "/parallel/chunking.py", "WorkChunks", "create", "chunkCreate", "LK.Gen.Chunking")})
 bad = [f for f, t in out.items() if open(os.path.join(G, f)).read() != t]
 extra = sorted(set(os.listdir(G)) - set(out) - {"WiringC03.lean", "SaveTraceC15.lean", "BatchTraceC12.lean"})          # (these are produced by running lenskit; ./check C03 / C15 / C12 rewrites them)
